@@ -29,8 +29,8 @@ BOUND = 20
 class MonDeque(deque):
     """deque that checks what SingleLane promises, inside SingleLane's own mutex."""
 
-    def __init__(self, maxsize, stats):
-        super().__init__()
+    def __init__(self, maxsize, stats, maxlen=None):
+        super().__init__(maxlen=maxlen)  # keep whatever bound the original deque was created with
         self._maxsize = maxsize
         self._stats = stats
         self._seq_in = 0
@@ -69,7 +69,7 @@ def install_lane_monitor(S, stats):
         class MonLane(Base):
             def __init__(self, maxsize=1_000_000):
                 super().__init__(maxsize)
-                self._queue = MonDeque(maxsize, stats)
+                self._queue = MonDeque(maxsize, stats, getattr(self._queue, 'maxlen', None))
 
         S.SingleLane = MonLane
         return Base
@@ -160,7 +160,8 @@ def run_case(case):
     sigs = []
     fuzz_stats = None
     sample = None
-    install_lane_monitor(S, stats)
+    if case.get('seed', 0) % 2 == 0 or case['kind'] == 'dfs':
+        install_lane_monitor(S, stats)  # optional probe; half of the seeded runs go without it so that it can never mask anything
 
     if kind == 'dfs':
         n, cap = case['n'], case['capacity']
